@@ -35,6 +35,7 @@ import NetflowModel.Props.C15b
 import NetflowModel.Props.C15c
 import NetflowModel.Props.C08b
 import NetflowModel.Props.C07c
+import NetflowModel.Props.C07d
 import NetflowModel.Props.C13b
 import NetflowModel.Props.C13c
 import NetflowModel.Props.C01c
